@@ -21,6 +21,7 @@ import (
 	"path/filepath"
 	"runtime"
 	"sort"
+	"strconv"
 	"strings"
 	"sync"
 	"sync/atomic"
@@ -605,6 +606,7 @@ type ckExec struct {
 	events  []ckEvent
 	gate    *ckGate
 	heavy   bool // large tree: observe visibility only at the mandatory points
+	hung    bool // concurrent callers never returned: the scenario is abandoned
 	salt    int
 	pvCount map[string]int
 }
@@ -628,6 +630,9 @@ func (x *ckExec) open() error {
 }
 
 func (x *ckExec) close() {
+	if x.hung {
+		return // stuck callers hold the database's locks: Close would never return
+	}
 	if x.ndb != nil {
 		x.ndb.Close()
 		x.ndb = nil
@@ -893,7 +898,24 @@ func (x *ckExec) step(s *ckStep) ckEvent {
 					}
 				}()
 			}
-			wg.Wait()
+			waited := make(chan struct{})
+			go func() { wg.Wait(); close(waited) }()
+			select {
+			case <-waited:
+			case <-time.After(ckHangTimeout):
+				// concurrent RestoreChunk callers that never return: the restore cannot complete.  The database is abandoned
+				// (its locks are held by the stuck callers); nothing further is observed in this scenario.
+				x.hung = true
+				pmu.Lock()
+				e["panic"] = fmt.Sprintf("hang: concurrent RestoreChunk callers did not return within %v", ckHangTimeout)
+				pmu.Unlock()
+				hres := make([]string, len(res))
+				for k := range res {
+					hres[k] = "hang"
+				}
+				e["res"] = hres
+				return
+			}
 			e["res"] = res
 			for _, r := range res {
 				if r == "done" {
@@ -955,11 +977,23 @@ func (x *ckExec) step(s *ckStep) ckEvent {
 	if x.gate != nil {
 		full = false // a caller sits inside the chunk commit holding the database's update lock
 	}
+	if x.hung {
+		e["latest"], e["obs"], e["listed"], e["has"], e["exact"], e["unreadable"], e["wrong"], e["foreign"], e["inprog"] = -1, false, []int{}, []int{}, []int{}, []int{}, []int{}, false, x.mp
+		return e
+	}
 	if operr := guard(func() { x.observe(e, full) }); operr != nil {
 		e["panic"] = firstWords(operr.Error())
 	}
 	return e
 }
+
+// ckHangTimeout bounds concurrent RestoreChunk calls (they take milliseconds; VERIF_CK_HANG_S overrides).
+var ckHangTimeout = func() time.Duration {
+	if v, err := strconv.Atoi(os.Getenv("VERIF_CK_HANG_S")); err == nil && v > 0 {
+		return time.Duration(v) * time.Second
+	}
+	return 60 * time.Second
+}()
 
 var ckGatePoints = map[string]bool{"badger.commit.mplog_flushed": true, "path.commit.seqno_committed": true}
 
@@ -1257,7 +1291,7 @@ func ckRunScenario(sc *ckScenario, self, scratch string) *ckResult {
 		}
 		first = k + 1
 	}
-	for k := first; k < len(sc.Steps); k++ {
+	for k := first; k < len(sc.Steps) && !x.hung; k++ {
 		record(k, x.step(&sc.Steps[k]))
 	}
 	res.events = append(res.events, ckEvent{"ev": "end", "id": sc.ID})
